@@ -427,6 +427,11 @@ func checkWrap(c WrapCell, vs map[string]variant, res *result) {
 	}
 	for _, prior := range []string{"", "objExact", "objWrongType", "objUnknown", "arrWrongType"} {
 		h := fi.SetStrict(c.Strict).AllowArray(c.AllowArray).Wrap()
+		if prior != "" {
+			// Wrap takes a snapshot of the settings: re-using the FuncInfo for another handler with the opposite settings
+			// afterwards does not change the handler already made
+			_ = fi.SetStrict(!c.Strict).AllowArray(!c.AllowArray).Wrap()
+		}
 		hist := ""
 		if prior != "" { // the same handler first serves another request (accepted or rejected): it must leave no trace
 			pp, ok := v.params[prior]
